@@ -28,13 +28,41 @@ fn safe_join(root: &Path, rel: &str) -> Option<PathBuf> {
     Some(root.join(p))
 }
 
-/// Staging name for `dst`. It carries this server's pid: concurrent server
-/// processes writing the same path must never share (and truncate) one staging
-/// file. It still ends in the reserved `.copia-tmp` suffix.
-fn tmp_of(dst: &Path) -> PathBuf {
-    let mut s = dst.as_os_str().to_owned();
-    s.push(format!(".{}.copia-tmp", std::process::id()));
-    PathBuf::from(s)
+/// Create the staging file for `dst` under a name no other writer can hold.
+///
+/// The name carries this server's pid, a clock reading and a per-process
+/// counter, and the file is created with `O_EXCL`: concurrent servers writing
+/// the same path must never share (and truncate) one staging file, and the pid
+/// alone does not tell servers apart - every server that is pid 1 of its own
+/// pid namespace (containers sharing one hub directory) has the same one. A
+/// name that already exists (a leftover of a killed server) is never reused.
+/// The name still ends in the reserved `.copia-tmp` suffix.
+fn create_staging(dst: &Path) -> std::io::Result<(PathBuf, std::fs::File)> {
+    use std::sync::atomic::{AtomicU64, Ordering};
+    static SEQ: AtomicU64 = AtomicU64::new(0);
+    loop {
+        let nanos = std::time::SystemTime::now()
+            .duration_since(std::time::UNIX_EPOCH)
+            .map(|d| d.as_nanos())
+            .unwrap_or(0);
+        let mut s = dst.as_os_str().to_owned();
+        s.push(format!(
+            ".{}.{:x}.{}.copia-tmp",
+            std::process::id(),
+            nanos,
+            SEQ.fetch_add(1, Ordering::Relaxed)
+        ));
+        let tmp = PathBuf::from(s);
+        match std::fs::OpenOptions::new()
+            .write(true)
+            .create_new(true)
+            .open(&tmp)
+        {
+            Ok(f) => return Ok((tmp, f)),
+            Err(e) if e.kind() == std::io::ErrorKind::AlreadyExists => continue,
+            Err(e) => return Err(e),
+        }
+    }
 }
 
 /// The hub's current blake3 for `dst`, or `None` if absent.
@@ -136,12 +164,11 @@ fn handle_put<R: Read, W: Write>(
     if let Some(p) = dst.parent() {
         std::fs::create_dir_all(p)?;
     }
-    let tmp = tmp_of(&dst);
+    let (tmp, mut tf) = create_staging(&dst)?;
     // Stream exactly `len` bytes to the temp file + hash them (never buffer whole).
     let mut hasher = blake3::Hasher::new();
     let mut received: u64 = 0;
     {
-        let mut tf = std::fs::File::create(&tmp)?;
         let mut limited = r.take(len);
         let mut buf = vec![0u8; 256 * 1024];
         loop {
@@ -155,6 +182,7 @@ fn handle_put<R: Read, W: Write>(
         }
         tf.sync_all()?;
     }
+    drop(tf);
     // The stream ended before the declared length: never commit a short write.
     if received != len {
         let _ = std::fs::remove_file(&tmp);
